@@ -331,6 +331,23 @@ def check_files(res):
         res.evaluations += 2
         if b"".join(kcopy.iter_bytes()) != b"k1" or b"".join(ktarget["k"].iter_bytes()) != b"k1":
             problems.append(("snapshot", "copies of a content whose source list was later mutated read %r / %r, expected b'k1'" % (b"".join(kcopy.iter_bytes()), b"".join(ktarget["k"].iter_bytes()))))
+        # a Content subclass that serialises itself (overrides iter_bytes instead of handing a
+        # callback to Content.__init__): its copy is a snapshot like any other
+        live = [b"s1"]
+
+        class SelfSerialising(C.Content):
+            def __init__(self):
+                C.Content.__init__(self, ContentType("text", "plain", {"charset": "utf8"}), lambda: [b"unused"])
+
+            def iter_bytes(self):
+                return iter(list(live))
+
+        starget = {}
+        gather_details({"s": SelfSerialising()}, starget)
+        live.append(b"s2")
+        res.evaluations += 1
+        if b"".join(starget["s"].iter_bytes()) != b"s1":
+            problems.append(("snapshot", "the gathered copy of a self-serialising Content subclass reads %r after its source grew, expected b's1'" % (b"".join(starget["s"].iter_bytes()),)))
         with open(path, "wb") as f:
             f.write(b"file-v1")
         fc = C.content_from_file(path, buffer_now=False)
